@@ -181,6 +181,12 @@ def order_compare(l, r, op):
         return None
     if isinstance(l, Ord) and isinstance(r, Ord):
         return ops[type(op)](l.rank, r.rank)
+    # an order token stands for a finite real: it lies strictly between -inf and +inf
+    import math as _m
+    if isinstance(l, Ord) and isinstance(r, float) and _m.isinf(r):
+        return ops[type(op)](0.0, r)
+    if isinstance(r, Ord) and isinstance(l, float) and _m.isinf(l):
+        return ops[type(op)](l, 0.0)
     # an untouched initial fill still has its literal value
     if isinstance(l, Tok) and l.kind == 'PH0' and l.val is not None and isinstance(r, (int, float)) and not isinstance(r, bool):
         return ops[type(op)](l.val, r)
@@ -1243,6 +1249,8 @@ def _float(sk, n, x):
     if x is None or isinstance(x, list):
         raise Violation('SK2', 'float(%r)' % (x,), n)
     if isinstance(x, str):
+        if x.strip().lower() in ('inf', '+inf', '-inf', 'infinity', '+infinity', '-infinity'):
+            return float(x)
         if not sk.text:
             raise Unsupported('float() of a formatted string')
         t = x.strip()
